@@ -39,6 +39,9 @@ type c16Req struct {
 	credValid bool
 	body      []byte
 	ctype     string
+	// topic, when set, is sent as the "topic" request parameter (the upload endpoint exempts sign-up avatars,
+	// topic=newacc, from the credentials check; downloads have no such exemption)
+	topic string
 }
 
 type c16World struct {
@@ -114,6 +117,9 @@ func (w *c16World) build(q c16Req) *http.Request {
 			sid = "nosuchsessionid"
 		}
 		form["sid"] = sid
+	}
+	if q.topic != "" {
+		qs.Set("topic", q.topic)
 	}
 	u.RawQuery = qs.Encode()
 	if q.upload && (q.method == "POST" || q.method == "PUT") {
@@ -270,6 +276,9 @@ func TestVfC16(t *testing.T) {
 			q.body = bytes.Repeat([]byte{byte('a' + i%26)}, sizes[rng.Intn(len(sizes))])
 		} else {
 			q.path = existingURL
+			if rng.Intn(3) == 0 {
+				q.topic = []string{"newacc", "newacc", "me", "new"}[rng.Intn(4)]
+			}
 		}
 		bodyMethod := q.method == "POST" || q.method == "PUT" || q.method == "DELETE" || q.method == "PATCH"
 		if (q.keyPlace == "form" || q.credPlace == "form" || q.credPlace == "sid") && !q.upload && bodyMethod {
@@ -285,6 +294,10 @@ func TestVfC16(t *testing.T) {
 			(!q.upload && (q.method == "GET" || q.method == "HEAD" || q.method == "OPTIONS"))
 		tooLarge := q.upload && int64(len(q.body)) > limit*3/4 // the limit applies to the whole multipart body, form fields included
 		label := fmt.Sprintf("upload=%v/%s/key=%s:%v/cred=%s:%s:%v", q.upload, q.method, q.keyPlace, q.keyValid, q.credPlace, q.credKind, q.credValid)
+		if q.topic != "" {
+			label += "/topic=" + q.topic
+			r.Hit("download_with_topic_parameter")
+		}
 		r.Eval(label)
 		wit := map[string]any{"request": label, "status": code, "body": truncate(string(body), 300)}
 		effective := !before.eq(after)
@@ -304,6 +317,9 @@ func TestVfC16(t *testing.T) {
 				what := "key"
 				if keyOK {
 					what = "credentials:" + q.credPlace + ":" + q.credKind
+				}
+				if q.topic != "" {
+					what += ":topic=" + q.topic
 				}
 				r.Violation("unauthorised-accepted:"+what, fmt.Sprintf("%s answered %d (effect: %v)", label, code, effective), wit)
 			}
@@ -505,7 +521,22 @@ func c16Links(w *c16World, wd *vfWorld, r *vfkit.R) {
 				all = append(all, id)
 				return id
 			}
-			switch rng.Intn(7) {
+			kstep := rng.Intn(8)
+			switch i {
+			case 0:
+				kstep = 3 // every history starts with a topic avatar ...
+			case 1:
+				kstep = 7 // ... followed by a plain subscriber's private-only {set} which names another upload
+			}
+			switch kstep {
+			case 7: // a subscriber who may not change the topic sets only the own private data, naming an upload in extra
+				id := up()
+				from := co.frameCount()
+				reqID := co.send("set", map[string]any{"topic": grp, "desc": map[string]any{"private": map[string]any{"note": fmt.Sprintf("n%d", i)}}}, map[string]any{"attachments": []string{"/v0/file/s/" + id}})
+				f := co.waitCtrl(reqID, from, vfReplyWait)
+				e.vfQuiesce()
+				r.Hit("private_only_set_links_nothing")
+				script = append(script, fmt.Sprintf("subscriber sets private naming upload %s -> %s (links nothing to the topic)", id, codeStr(f)))
 			case 0: // never linked
 				id := up()
 				script = append(script, "upload "+id+" (never linked)")
